@@ -34,7 +34,7 @@ class P:
         srcs += [g.program(rnd.choice([1, 2, 3])) for _ in range(600 if tier == "quick" else 8000)]
         srcs += G.heredoc_corpus() + G.arith_corpus()
         down = [hx(s) for s in srcs]
-        alpha = ["a", "1", "x", "*", "?", "[", "]", "!", "^", "-", "\\", ".", "/", "(", ")", "+", "=", " ", "\n", "é", "\xff", "$", "~", ":", "<", ">", "&", "|", "%", "0x", "08"]
+        alpha = ["a", "1", "x", "*", "?", "[", "]", "!", "^", "-", "\\", ".", "/", "(", ")", "+", "=", " ", "\n", "é", "\xff", "$", "~", ":", "<", ">", "&", "|", "%", "0x", "08", "<<", ">>", "64", "-1"]
         strs = ["".join(t).encode("latin-1", "replace") if False else "".join(t) for t in itertools.product(alpha, repeat=1)]
         strs = [""] + ["".join(t) for n in (1, 2, 3 if tier != "quick" else 2) for t in itertools.product(alpha, repeat=n)]
         strs += ["".join(rnd.choice(alpha) for _ in range(rnd.randint(4, 12))) for _ in range(4000 if tier == "quick" else 60000)]
